@@ -193,6 +193,15 @@ def c15_c(ctx: Ctx):
                     ct = kwarg(n, "copytree") or (n.args[1] if len(n.args) > 1 else None)
                     if ct is not None and isinstance(ct, ast.Attribute) and ct.attr == "copytree" and ctx.calls.type_of(ct.value, fi) == FP:
                         out.append(ctx.ok(R, fi, n, "Project.clone is given the proxy's copytree"))
+                    elif isinstance(ct, ast.Name) and ctx.calls.resolve_name_to_func(fi.module, ct.id, fi) is not None:
+                        w = ctx.calls.resolve_name_to_func(fi.module, ct.id, fi)
+                        inner_ct = [c for c in body_nodes(w) if isinstance(c, ast.Call) and isinstance(c.func, ast.Attribute) and c.func.attr == "copytree"
+                                    and ctx.calls.type_of(c.func.value, w) == FP]
+                        direct = [e for e in ctx.effects.direct(w) if e.kind in common.MUTATING_KINDS]
+                        if inner_ct and not direct:
+                            out.append(ctx.ok(R, fi, n, f"Project.clone is given {ct.id}, a wrapper that copies only through the proxy's copytree"))
+                        else:
+                            out.append(ctx.viol(R, fi, n, f"Project.clone is given {ct.id}, which does not copy through the proxy (direct effects: {[e.prim for e in direct]}): cloning also happens in a dry run"))
                     else:
                         out.append(ctx.viol(R, fi, n, "Project.clone is called without the proxy's copytree: cloning uses shutil.copytree directly, also in a dry run"))
         # document sync functions get the proxy, not the raw destination document
@@ -356,19 +365,19 @@ def c15_d(ctx: Ctx):
                     out.append(ctx.inc(R, sjw, c, msg + ": " + ex[0][:60], construct=k2))
             else:
                 out.append(ctx.viol(R, sjw, c, "a file is copied without testing the exclude patterns", construct=k2))
-    # the exclude list may be shared between concurrently synchronised jobs: entries are only ever added
-    sj2 = ctx.fn(SJ)
-    dels = [n for n in body_nodes(sj2) if (isinstance(n, ast.Delete) and any(isinstance(t, ast.Subscript) and canon(t.value) == "exclude" for t in n.targets))
-            or (isinstance(n, ast.Call) and isinstance(n.func, ast.Attribute) and canon(n.func.value) == "exclude" and n.func.attr in ("pop", "remove", "clear"))]
-    if dels:
-        out.append(ctx.viol(R, sj2, dels[0], f"sync_jobs removes entries from the exclude list ({stmt_key(dels[0], 40)}); with parallel project synchronisation the list object is shared, so a job that "
-                            "finishes removes the reserved state point / document names of a job that is still walking its files: parallel and sequential runs differ", construct=SJ + "|exclude-shrinks"))
-    else:
-        out.append(ctx.ok(R, sj2, sj2.node, "sync_jobs only ever adds to the exclude list", construct=SJ + "|exclude-shrinks"))
+    # the exclude list belongs to the caller (and is shared by the jobs of a parallel project sync): sync_jobs works on its own copy
+    from .lints import param_not_mutated
+    out += param_not_mutated(ctx, R, [(SJ, "exclude", "a list re-used for a later call (or shared by the jobs of a parallel project sync) keeps the reserved state point / document names of "
+                                       "the earlier call: with doc_sync=COPY the job document is then silently not copied, and any clone-side filter built from the list drops the state point file")])
     # clone branch and exclude (known gap)
     clone_calls = [n for n in body_nodes(inner) if isinstance(n, ast.Call) and "signac.project:Project.clone" in common.targets_of(ctx, inner, n)]
     for c in clone_calls:
-        if "exclude" in {x for a in list(c.args) + [k.value for k in c.keywords] for x in names_in(a)}:
+        argnames = {x for a in list(c.args) + [k.value for k in c.keywords] for x in names_in(a)}
+        for an in list(argnames):
+            w = ctx.calls.resolve_name_to_func(inner.module, an, inner)
+            if w is not None and w.parent is not None:
+                argnames |= {x.id for x in body_nodes(w) if isinstance(x, ast.Name)}
+        if "exclude" in argnames:
             out.append(ctx.ok(R, inner, c, "the clone branch takes exclude into account", construct=SP + "|clone-exclude"))
         else:
             out.append(ctx.viol(R, inner, c, "jobs that do not exist in the destination are cloned with all their files: `exclude` has no influence on the clone branch",
@@ -433,9 +442,13 @@ def c15_f(ctx: Ctx):
     R = "C15-f"
     sp = ctx.fn(SP)
     out = []
-    assigns = [n for n in body_nodes(sp) if isinstance(n, ast.Assign) and any(isinstance(t, ast.Name) and t.id == "jobs_to_sync" for t in n.targets)]
+    # the job list: the local that _clone_or_sync is mapped over (parallel branch) / iterated with (sequential branch)
+    par0 = [n for n in body_nodes(sp) if isinstance(n, ast.Call) and isinstance(n.func, ast.Attribute) and n.func.attr in ("imap", "map", "imap_unordered")
+            and len(n.args) >= 2 and canon(n.args[0]) == "_clone_or_sync"]
+    JV = par0[0].args[1].id if par0 and isinstance(par0[0].args[1], ast.Name) else "jobs_to_sync"
+    assigns = [n for n in body_nodes(sp) if isinstance(n, ast.Assign) and any(isinstance(t, ast.Name) and t.id == JV for t in n.targets)]
     if not assigns:
-        return [ctx.inc(R, sp, sp.node, "jobs_to_sync not found")]
+        return [ctx.inc(R, sp, sp.node, "the list of jobs to synchronise was not found")]
     for a in assigns:
         v = a.value
         facts = common.facts_at(ctx, sp, a, "n")
@@ -454,11 +467,16 @@ def c15_f(ctx: Ctx):
             sel = [c for c in filt if "selection" in c]
             if not sel:
                 out.append(ctx.viol(R, sp, a, "the job list is built by a comprehension that does not test the selection"))
-            elif all(c.replace(" ", "") in ("job.idinselection", "str(job)inselection", "job.idinselectionorjobinselection") for c in sel):
+            elif all(common.pmatch("J.id in selection", ast.parse(c, mode="eval").body) or common.pmatch("str(J) in selection", ast.parse(c, mode="eval").body)
+                     or common.pmatch("J.id in selection or J in selection", ast.parse(c, mode="eval").body) for c in sel):
                 out.append(ctx.ok(R, sp, a, "jobs are filtered by membership of their id in the selection"))
             else:
                 out.append(ctx.viol(R, sp, a, f"selection filter `{sel[0]}` lets jobs through that are not selected (e.g. when the selection is empty)"))
-    from .lints import sentinel_discipline
+    from .lints import sentinel_discipline, single_consumption
+    out += single_consumption(ctx, R, [
+        ("signac.project:Project.sync", "selection", "a selection given as a generator / filter object is exhausted by the first pass; sync_projects then sees an empty selection and synchronises nothing"),
+        (SP, "selection", "a selection given as a generator is exhausted by the first pass"),
+    ])
     out += sentinel_discipline(ctx, R, [(SP, "selection", "an empty selection (no job chosen, a cursor that matches nothing) is a selection: treated as 'not given' every source job is cloned / synchronised")])
     # parallel vs sequential
     inner = sp.nested.get("_clone_or_sync")
@@ -468,7 +486,7 @@ def c15_f(ctx: Ctx):
         out.append(ctx.inc(R, sp, sp.node, "parallel / sequential application of _clone_or_sync not found"))
     else:
         p = par[0]
-        ok_par = len(p.args) >= 2 and canon(p.args[0]) == "_clone_or_sync" and canon(p.args[1]) == "jobs_to_sync"
+        ok_par = len(p.args) >= 2 and canon(p.args[0]) == "_clone_or_sync" and canon(p.args[1]) == JV
         pm = ctx.parents(sp)
         cur = pm.get(id(seq[0]))
         loop = None
@@ -477,7 +495,7 @@ def c15_f(ctx: Ctx):
                 loop = cur
                 break
             cur = pm.get(id(cur))
-        ok_seq = loop is not None and "jobs_to_sync" in canon(loop.iter) and "[" not in canon(loop.iter)
+        ok_seq = loop is not None and JV in names_in(loop.iter) and "[" not in canon(loop.iter)
         if ok_par and ok_seq:
             out.append(ctx.ok(R, sp, p, "parallel and sequential branches apply _clone_or_sync to the same jobs_to_sync"))
         else:
